@@ -232,7 +232,7 @@ def monitor_discipline(c, F):
         for (t0, d0), (t1, d1) in zip(g, g[1:]):
             if d0 == d1 and t1 - t0 > max(60000, c["interval_ms"]):
                 return "%s retransmission interval %d ms above the 60 s cap" % (side, t1 - t0)
-        m = _monitor_backoff_floor(c, side)
+        m = _monitor_backoff_floor(c, side) or _monitor_partial_ack(c, side)
         if m:
             return m
         nem = sum(1 for e in c["events"] if e["ev"] == "emit" and e["side"] == side)
@@ -312,6 +312,51 @@ def _monitor_backoff_floor(c, side):
                     new = True          # an ACK (or anything else) is not a retransmission
             if new:
                 k, tlast = 0, None
+    return None
+
+
+PARTIAL_ACK = "unacknowledged rest of a partially acknowledged flight is not retransmitted"
+
+
+def _monitor_partial_ack(c, side):
+    """an endpoint that awaits a reply keeps retransmitting its flight: after a PARTIAL acknowledgement the
+    unacknowledged rest is still retransmitted (until it is acknowledged, or - client - a post-handshake message
+    arrives). Judged on the protected records (epoch 2) of the side's last handshake flight."""
+    content = {}
+    flight = set()        # fragments of the protected handshake records the side has sent (its last flight)
+    acked = set()
+    t_partial = None
+    resent_after = set()
+    implicit = False
+    for e in c["events"]:
+        if e["ev"] == "emit":
+            content[e["idx"]] = e.get("recs") or []
+            if e["side"] == side:
+                for r in e.get("recs") or []:
+                    if r["k"] == "hs" and r["e"] == 2:
+                        f = (r["ms"], r["fo"], r["fl"])
+                        flight.add(f)
+                        if t_partial is not None and e["t"] > t_partial:
+                            resent_after.add(f)
+        elif e["ev"] == "deliver" and e["side"] == side:
+            for r in content.get(e["idx"], []):
+                if r["k"] == "ack":
+                    got = {tuple(f) for f in (r.get("ackfr") or [])} & flight
+                    if got:
+                        acked |= got
+                        if t_partial is None and acked != flight:
+                            t_partial = e["t"]
+                elif r["k"] == "hs" and r["e"] >= 3 and side == "client":
+                    implicit = True
+    rest = flight - acked
+    if t_partial is None or not rest or implicit:
+        return None
+    if established(c):
+        return None
+    # the handshake did not complete although the network became reliable: the rest must have been repeated
+    if c["tdone"] - t_partial > 2 * 60000 and not (rest & resent_after):
+        return PARTIAL_ACK + ": the %s got an ACK for %s of its flight at %d ms and never sent %s again in the following %d ms" % (
+            side, sorted(acked), t_partial, sorted(rest), c["tdone"] - t_partial)
     return None
 
 
@@ -448,6 +493,13 @@ def _leg(chk, prop, leg, test, seed_off, monitor, monitor_name, rule, regenerate
                 found = chk.finding(SITE_NOT_CH, SIG_NOT_CH,
                                     "%s [variant %s, injected %s, silence to %s until %s]" % (
                                         m, c["variant"], c.get("inject"), c.get("silence_to") or "-", c.get("silence_until")),
+                                    replay_of(c)) or found
+                continue
+            if m.startswith(PARTIAL_ACK):
+                if PARTIAL_ACK in reported:
+                    continue
+                reported.add(PARTIAL_ACK)
+                found = chk.finding(SITE, {"family": "dtls13", "monitor": PARTIAL_ACK}, "%s [%s]" % (m, describe(c)),
                                     replay_of(c)) or found
                 continue
             if m.startswith(REPEAT_FRAG):
